@@ -364,3 +364,39 @@ Proof.
   - destruct (set t k v) as [[t1 rc]|] eqn:E; [|discriminate].
     eapply IH; [|exact H]. eapply reach_set; eassumption.
 Qed.
+
+(** ** the walk as it was before commit 90cf288 *)
+Theorem prefix_walk_refuted :
+  (* key 16 alone, with a destructor and a non-NULL value: no call at all *)
+  (exists t, set_all empty [(16, 777)] = Some t /\ reach t /\ get t 16 = Some 777 /\
+             option_map calls_of (fini true (fun _ => 1) t) = Some []) /\
+  (* keys {0, 16}: leaf 1 is looked up at table cell 64: the destructor of key 64 receives
+     key 16's value, key 16's own destructor is not called *)
+  (exists t, set_all empty [(0, 5); (16, 6)] = Some t /\ reach t /\
+             option_map calls_of (fini true (dt_of [0; 16; 64]) t) = Some [(0, 5); (64, 6)]) /\
+  (* keys {0, 256}: the second subtree is walked with base 1024: cells past the table are read *)
+  (exists t evs, set_all empty [(0, 5); (256, 6)] = Some t /\ reach t /\
+             fini true (dt_of [0; 256]) t = Some evs /\ In 1024 (reads_of evs) /\
+             calls_of evs = [(0, 5)]) /\
+  (* and the teardown walk leaked the nodes behind the first empty child *)
+  (exists t evs, set_all empty [(16, 1); (17, 2); (300, 3)] = Some t /\ reach t /\
+             fini true (fun _ => 0) t = Some evs /\ frees_of evs = [] /\
+             exists id sz, In (Heap id, sz) (nodes (root t))).
+Proof.
+  split; [|split; [|split]].
+  - eexists. split; [vm_compute; reflexivity|]. split; [|split; vm_compute; reflexivity].
+    eapply set_all_some_reach; [apply reach_empty|vm_compute; reflexivity].
+  - eexists. split; [vm_compute; reflexivity|]. split; [|vm_compute; reflexivity].
+    eapply set_all_some_reach; [apply reach_empty|vm_compute; reflexivity].
+  - eexists _, _. split; [vm_compute; reflexivity|]. split;
+      [eapply set_all_some_reach; [apply reach_empty|vm_compute; reflexivity]|].
+    split; [vm_compute; reflexivity|]. split; [|vm_compute; reflexivity].
+    vm_compute. do 16 right. left. reflexivity.
+  - eexists _, _. split; [vm_compute; reflexivity|]. split;
+      [eapply set_all_some_reach; [apply reach_empty|vm_compute; reflexivity]|].
+    split; [vm_compute; reflexivity|]. split; [vm_compute; reflexivity|].
+    exists 0, SZ_NODE. vm_compute. tauto.
+Qed.
+
+Lemma fini_empty old dt : fini old dt empty = Some [].
+Proof. reflexivity. Qed.
